@@ -303,10 +303,147 @@ impl log::Log for LogSink {
     fn flush(&self) {}
 }
 
+// ---------------------------------------------------------------------------
+// The same plain case DECLARED IN A CONFIGURATION FILE (6-component case: the plain case
+// plus ( override 0 )): the appenders and their filter chains are written as YAML, the
+// scripted filter / recording appender kinds are registered by the harness
+// (`Deserializers::insert`), the text goes through RawConfig::appenders_lossy.  With
+// override = 1 the kind `threshold` is registered AGAIN by the harness (a recording
+// wrapper around the crate's ThresholdFilter, configured with two extra keys): the kind
+// registered last must be the one that is used.
+// ---------------------------------------------------------------------------
+static FILE_REC: Mutex<Option<Rec>> = Mutex::new(None);
+
+fn file_rec() -> Rec {
+    FILE_REC.lock().unwrap().clone().expect("file rec")
+}
+
+fn jnum(v: &serde_json::Value, k: &str) -> anyhow::Result<u64> {
+    v.get(k).and_then(|x| x.as_u64()).ok_or_else(|| anyhow::anyhow!("missing numeric `{}`", k))
+}
+
+struct VRecDeser;
+impl log4rs::config::Deserialize for VRecDeser {
+    type Trait = dyn log4rs::append::Append;
+    type Config = serde_json::Value;
+    fn deserialize(
+        &self,
+        c: serde_json::Value,
+        _: &log4rs::config::Deserializers,
+    ) -> anyhow::Result<Box<dyn log4rs::append::Append>> {
+        let idx = jnum(&c, "idx")? as usize;
+        match jnum(&c, "mode")? {
+            2 => Ok(Box::new(LogSink { idx, rec: file_rec() })),
+            m => Ok(Box::new(RecAppender { idx, fails: m == 1, rec: file_rec() })),
+        }
+    }
+}
+
+struct VScriptDeser;
+impl log4rs::config::Deserialize for VScriptDeser {
+    type Trait = dyn log4rs::filter::Filter;
+    type Config = serde_json::Value;
+    fn deserialize(
+        &self,
+        c: serde_json::Value,
+        _: &log4rs::config::Deserializers,
+    ) -> anyhow::Result<Box<dyn log4rs::filter::Filter>> {
+        Ok(Box::new(SpyFilter {
+            app: jnum(&c, "app")? as usize,
+            k: jnum(&c, "k")? as usize,
+            inner: Box::new(FixedFilter(jnum(&c, "r")? as u8)),
+            rec: file_rec(),
+        }))
+    }
+}
+
+/// the harness's own `threshold` kind (registered over the built-in one)
+struct VThresholdDeser;
+impl log4rs::config::Deserialize for VThresholdDeser {
+    type Trait = dyn log4rs::filter::Filter;
+    type Config = serde_json::Value;
+    fn deserialize(
+        &self,
+        c: serde_json::Value,
+        _: &log4rs::config::Deserializers,
+    ) -> anyhow::Result<Box<dyn log4rs::filter::Filter>> {
+        Ok(Box::new(SpyFilter {
+            app: jnum(&c, "app")? as usize,
+            k: jnum(&c, "k")? as usize,
+            inner: Box::new(ThresholdFilter::new(level_filter(jnum(&c, "lvl")? as u128))),
+            rec: file_rec(),
+        }))
+    }
+}
+
+const LEVEL_NAMES: [&str; 6] = ["off", "error", "warn", "info", "debug", "trace"];
+
+fn run_from_file(c: &[Val]) -> Val {
+    let over = c[4].b();
+    let lvl = level(c[1].n());
+    let rec = new_rec();
+    *FILE_REC.lock().unwrap() = Some(rec.clone());
+    let mut y = String::from("appenders:\n");
+    for (i, a) in c[2].l().iter().enumerate() {
+        let a = a.l();
+        y.push_str(&format!("  a{}:\n    kind: vrec\n    idx: {}\n    mode: {}\n", i, i, a[0].n()));
+        if !a[1].l().is_empty() {
+            y.push_str("    filters:\n");
+        }
+        for (k, f) in a[1].l().iter().enumerate() {
+            let f = f.l();
+            if f[0].n() == 0 {
+                y.push_str(&format!("      - kind: vscript\n        app: {}\n        k: {}\n        r: {}\n", i, k, f[1].n()));
+            } else if over {
+                y.push_str(&format!("      - kind: threshold\n        app: {}\n        k: {}\n        lvl: {}\n", i, k, f[1].n()));
+            } else {
+                y.push_str(&format!("      - kind: threshold\n        level: {}\n", LEVEL_NAMES[f[1].u()]));
+            }
+        }
+    }
+    y.push_str(&format!("root:\n  level: {}\n  appenders: [", LEVEL_NAMES[c[0].u()]));
+    y.push_str(&c[3].l().iter().map(|at| format!("a{}", at.n())).collect::<Vec<_>>().join(", "));
+    y.push_str("]\n");
+    let raw: log4rs::config::RawConfig = match serde_yaml::from_str(&y) {
+        Ok(r) => r,
+        Err(_) => return Val::err(3),
+    };
+    let mut d = log4rs::config::Deserializers::default();
+    d.insert("vrec", VRecDeser);
+    d.insert("vscript", VScriptDeser);
+    if over {
+        d.insert("threshold", VThresholdDeser);
+    }
+    let (apps, errs) = raw.appenders_lossy(&d);
+    if !errs.is_empty() {
+        return Val::err(4);
+    }
+    let config = match Config::builder().appenders(apps).build(raw.root()) {
+        Ok(c) => c,
+        Err(_) => return Val::err(1),
+    };
+    let hrec = rec.clone();
+    let logger = log4rs::Logger::new_with_err_handler(
+        config,
+        Box::new(move |e: &anyhow::Error| {
+            let idx: u128 = e.to_string().parse().unwrap_or(999);
+            hrec.lock().unwrap().push(Val::L(vec![Val::N(2), Val::N(idx)]));
+        }),
+    );
+    logger.log(&log::Record::builder().level(lvl).target("some::target").args(format_args!("m")).build());
+    drop(logger);
+    *FILE_REC.lock().unwrap() = None;
+    let ev = rec.lock().unwrap().clone();
+    Val::L(ev)
+}
+
 fn run(case: &Val) -> Val {
     let c = case.l();
     if c.len() == 5 {
         return run_isolated(&c);
+    }
+    if c.len() == 6 {
+        return run_from_file(&c);
     }
     let node_level = level_filter(c[0].n());
     let lvl = level(c[1].n());
